@@ -233,7 +233,13 @@ def numba_values(fn, D, mode, gradient=False):
         vals = np.empty((G, T, 4), dtype=np.complex128)
         for g in range(G):
             xt = np.ascontiguousarray(D["x"][g].T)  # (3,1)
-            vals[g] = np.asarray(fn(xt, yc[g], D["p_nb"][g], np.dtype(dt), rdt)).reshape(T, 4)
+            if g % 2 == 0:
+                vals[g] = np.asarray(fn(xt, yc[g], D["p_nb"][g], np.dtype(dt), rdt)).reshape(T, 4)
+            else:
+                # the helper takes several targets per call (that is how the FMM near field uses it): the pair of interest is the
+                # SECOND target of a two-target call, so that state carried over from one target to the next is observed too
+                x2 = np.ascontiguousarray(np.hstack([np.ascontiguousarray(D["x"][g - 1].T), xt]))  # (3,2)
+                vals[g] = np.asarray(fn(x2, yc[g], D["p_nb"][g], np.dtype(dt), rdt)).reshape(2, T, 4)[1]
         return vals
     if mode == "regular":
         nyc = np.ascontiguousarray(D["ny"].transpose(0, 2, 1))
